@@ -23,11 +23,15 @@ CLS["C"] = Company
 NAME = {v: k for k, v in CLS.items()}
 
 EVENTS = []
+CURRENT = [None]   # the Run whose objects give meaning to addresses
 
 
 def sink(ev, fields):
     d = {"a": ev}
     d.update(fields)
+    if ev == "add_node" and CURRENT[0] is not None:
+        # which model object is being registered (0 = not an object of this history)
+        d["o"] = CURRENT[0].idmap().get(fields.get("addr"), 0)
     EVENTS.append(d)
 
 
@@ -46,6 +50,9 @@ class Run:
         self.wr = {}        # model id -> weakref
         self.cls = {}
         self.base = 0       # id offset for loop iterations
+        self.dead_addrs = set()
+        self.addr_of = {}
+        self.addr_reuse = 0  # how often CPython handed a dead object's address to a new instance
 
     def census(self):
         return sorted(o for o, r in self.wr.items() if r() is not None)
@@ -89,6 +96,14 @@ class Run:
             self.objs[o] = inst
             self.wr[o] = weakref.ref(inst)
             self.cls[o] = rec["c"]
+            self.addr_of[o] = id(inst)
+            for e in reversed(EVENTS):   # the registration event of this very object (emitted inside __new__)
+                if e["a"] == "add_node" and e.get("addr") == id(inst):
+                    if not e.get("o"):
+                        e["o"] = o
+                    break
+            if id(inst) in self.dead_addrs:
+                self.addr_reuse += 1
             del inst
         elif a == "drop":
             del self.objs[rec["o"] + self.base]
@@ -132,6 +147,10 @@ class Run:
         else:
             raise ValueError(a)
         out["live"] = self.census()
+        alive = set(out["live"])
+        for o, a in self.addr_of.items():
+            if o not in alive:
+                self.dead_addrs.add(a)
         return out
 
     def drop_all(self):
@@ -148,6 +167,7 @@ def handle(case):
     EVENTS = []
     vh.install(sink if case.get("events", True) else None)
     run = Run()
+    CURRENT[0] = run
     res = {"steps": []}
     try:
         if case["mode"] == "c20":
@@ -167,7 +187,18 @@ def handle(case):
             res["growth"] = growth
         else:
             res["steps"] = [run.step(r) for r in case["h"]]
+            # final audit (C13 on whatever the history left behind): one domain-less query per class in use
+            audit = {}
+            for cname in sorted(set(run.cls.values())):
+                census = run.census()
+                bag, foreign, none, err = run.query(CLS[cname])
+                audit[cname] = {"census_before": census, "bag": {str(k): v for k, v in sorted(bag.items())},
+                                "foreign": foreign, "none": none, "error": err}
+            res["audit"] = audit
+            res["cls"] = {str(k): v for k, v in run.cls.items()}
+            res["addr_reuse"] = run.addr_reuse
     finally:
+        CURRENT[0] = None
         vh.install(None)
     res["events"] = EVENTS
     EVENTS = []
